@@ -2,7 +2,7 @@
 """Assemble /verif/seeded/<id>/ from the sub-agents' deliverables and my confirmation log."""
 import os, json, shutil, re
 conf = {}
-for l in open('/tmp/confirm.log'):
+for l in (open("/tmp/confirm.log") if os.path.exists("/tmp/confirm.log") else []):
     p = l.split(' ', 1); conf[p[0]] = p[1].strip()
 DET = json.load(open('/verif/tools/seeded_detection.json'))
 for pid in sorted(os.listdir('/tmp')):
